@@ -48,8 +48,9 @@ META['C06'] = {
             'pid lists, pairwise distinct group ids) for every job-table operation of Shell (insert_job: same group appends / new job takes the smallest '
             'free id; remove_pid_from_job: exactly that pid goes, the job goes iff it became empty; member stopped/continued; job running/stopped; lookups), '
             'for all tables and all pid orders; and for the event protocol (U-WAIT): wait_fg_job against an ADVERSARIAL waitpid (any valid event in any order) keeps the '
-            'table well-formed, parks every event of a non-foreground child where the prompt-time poll finds it, and reports the status of the last stage\'s latest event; '
-            'WaitStatus accessors; state transitions of the jobc layer.',
+            'table well-formed, parks every event of a non-foreground child where the prompt-time poll finds it, returns exactly when every member has exited or is stopped '
+            '(spec settled_at: the latest event of each member decides) and reports the status of the last stage\'s latest event; a job is Stopped exactly when all its live members '
+            'are stopped (member continued -> Running; member removed -> re-evaluated); WaitStatus accessors; state transitions of the jobc layer.',
     'note': 'std HashMap/HashSet/Vec contracts (vstd; get_mut and binary_search/position written out); < 65533 jobs; insert_job caller facts '
             '(same-gid job has all smaller ids occupied, pid fresh) assumed; job-control event protocol (wait_fg_job / try_wait_bg_jobs) is U-WAIT.',
 }
@@ -99,11 +100,12 @@ META['C19'] = {
 }
 
 META['C10'] = {
-    'text': 'Verus proves that expand_env changes only the text of tokens that are neither single-quoted nor backquoted and that the gate says need expansion; tags and the '
-            'number of tokens never change. Termination of the rescanning loop `while env_in_token` is an obligation that cannot be discharged: it is the recorded known finding '
-            '(self-referential values hang; inserted values are scanned again).',
-    'note': 'env_in_token and expand_one_env (lazy-prefix regexes, env lookups) are uninterpreted: exactness of one substitution step is not covered; '
-            'known finding: non-termination / rescanning.',
+    'text': 'Verus proves that the new text of every eligible word (not single-quoted, backquoted or backslash-tagged; gate says a reference is present) is env_expand(old text): '
+            'the leftmost $NAME / ${NAME} / $? / $$ is replaced by its current value (process environment first, then shell variables, nothing if unset), the value is APPENDED and only '
+            'the text after the reference is scanned again, so inserted values are never rescanned and the scan terminates (decreases: length of the rest); every other word keeps its text; '
+            'the number of tokens never changes; tags change only from empty to double-quoted when the value brings an operator character (C13).',
+    'note': 'the two reference patterns and the gate (env_in_token) are uninterpreted regexes: "group 3 is a proper suffix, head + reference + tail is the text" is validated on a bounded '
+            'set by axcheck (env_ref); env::var / getpid through shims; after fix 3097820 no finding is listed.',
 }
 META['C17'] = {
     'text': 'Verus proves that expand_alias replaces exactly the words at head positions (line start or after an unquoted "|"; documented exception after a head `xargs`) that are '
@@ -164,13 +166,13 @@ META['C07'] = {
 }
 
 META['C11'] = {
-    'text': 'Partial. Verus proves for both substitution passes that only words that are not single-quoted / escaped and that contain a substitution may change, that tags and the '
-            'number of tokens never change, that the index bookkeeping stays in step on every path (error paths included), that an inner command is run at most once per planning, '
-            'and termination of the rewrite loops (the $(..) loop under the stated assumption that one replace removes one substitution); that one $(..) step yields '
-            'head + output + tail with the output inserted literally (template semantics of Regex::replace assumed and validated by axcheck); that a builtin captures its output '
-            'only as the last stage of a captured pipeline.',
-    'note': 'NOT covered by contracts: that the replacement is the command\'s stdout and the trimming (kernel / std); known findings: the inserted text is scanned again (an output '
-            'containing $(cmd) is executed), two substitutions in ONE word are taken as one (greedy pattern); inner from_line / run_pipeline are external.',
+    'text': 'Verus proves that split_first_substitution returns the text before the first substitution of a word ($(..) with its MATCHING parenthesis, or a pair of backquotes), the command '
+            'and the text after it, that these concatenate to the word and that the tail is shorter; that one step of the pass appends the head and the (trimmed) output literally and '
+            'continues with the tail only, so an output is never looked at again, several substitutions in one word are handled in order and the scan terminates; that only words that are '
+            'not single-quoted / escaped / whole-backquoted and contain a substitution change, an inner command is run at most once per planning, a builtin captures its output only as the '
+            'last stage of a captured pipeline, and the two passes run in the fixed order.',
+    'note': 'that the replacement is the command\'s stdout and the trimming are kernel / std behaviour; inner from_line / run_pipeline are external (contracts in U-PLAN / U-FD); '
+            'no finding is listed after fixes 896ac58, 6c5e4a8, 6f9ff83.',
 }
 
 _PENDING = 'not yet brought under contract in this revision of /verif (work in progress; see DESIGN.md)'
